@@ -22,3 +22,23 @@ UNITS.append(Unit('backmp11.enqueue_event', ['C04', 'C18', 'C13'], 'backmp11', P
     'void api_enqueue_event(fsm_t* self, event_t event)', 'api_mp11.spec.h', defines=['UNIT_ENQUEUE=1'], xform=xfa(), replay=['queue']))
 UNITS.append(Unit('backmp11.process_event', ['C04', 'C06', 'C13'], 'backmp11', Part(SB, [], 'process_result process_event ( Event const & event )'),
     'process_result api_process_event(fsm_t* self, event_t event)', 'api_mp11.spec.h', defines=['UNIT_PROCESS=1'], xform=xfa(), replay=['queue']))
+
+EX = ['struct exit_pt']
+UNITS.append(Unit('backmp11.exit_pt.forward_event', ['C09', 'C18', 'C13'], 'backmp11', Part(SB, EX, 'void forward_event ( void * root_sm , const ForwardEvent & forward_event )'),
+    'void exit_forward_event(exitpt_t* self, fsm_t* root_sm, event_t forward_event)', 'api_mp11.spec.h', defines=['UNIT_EXIT_FORWARD=1'],
+    xform=back_xform([], refparams=(), members=['m_forward_fn'], enums=ENUMS, drop=DROP2, pre_rewrites=[dict(name='ASSERT-convertible', pat='static_assert ( $*A ;', rep='', min=0, max=1)],
+        rewrites=[dict(name='fnptr-call', pat='self -> m_forward_fn ( root_sm , & forward_event ) ;', rep='call_forward_fn ( self , root_sm , forward_event ) ;', min=0, max=1)]), replay=['sel']))
+UNITS.append(Unit('backmp11.exit_pt.call_enqueue_event', ['C09', 'C04', 'C13'], 'backmp11', Part(SB, EX, 'static void call_enqueue_event ( void * root_sm , const void * event )'),
+    'void call_enqueue_event(fsm_t* root_sm, event_t event)', 'api_mp11.spec.h', defines=['UNIT_EXIT_ENQUEUE=1'],
+    xform=back_xform([], refparams=(), enums=ENUMS, drop=DROP2, rewrites=[
+        dict(name='CAST-call', pat='( ( RootSm * ) ( root_sm ) ) -> enqueue_event ( * ( ( const Event * ) ( event ) ) ) ;', rep='root_enqueue_event ( root_sm , event ) ;', min=0, max=1)]), replay=['sel']))
+UNITS.append(Unit('backmp11.completion_event_occurrence.try_process_impl', ['C10', 'C13'], 'backmp11',
+    Part(SB, ['class completion_event_occurrence'], 'optional < process_result > try_process_impl ( derived_t & sm )'),
+    'optres_t completion_try_process_impl(cocc_t* self, fsm_t* sm)', 'api_mp11.spec.h', defines=['UNIT_COMPLETION_OCC=1'],
+    xform=back_xform([], refparams=(), members=['m_region_id'], enums=ENUMS, drop=DROP2, rewrites=[
+        dict(name='base-member-call', pat='mark_for_deletion ( ) ;', rep='MARK_FOR_DELETION ( self ) ;', min=0, max=1),
+        dict(name='OPT-some', pat='return sm . template process_completion_transition < completion_transition > ( self -> m_region_id ) ;', rep='return some_ ( process_completion_transition ( sm , self -> m_region_id ) ) ;', min=0, max=1),
+        dict(name='OPT-some2', pat='return sm . process_completion_transition < completion_transition > ( self -> m_region_id ) ;', rep='return some_ ( process_completion_transition ( sm , self -> m_region_id ) ) ;', min=0, max=1)]),
+    must_contain=[('backmp11/common_types.hpp', 'void mark_for_deletion ( ) { m_marked_for_deletion = true ; }')], replay=['queue']))
+UNITS.append(Unit('backmp11.defer_event', ['C05', 'C18', 'C13'], 'backmp11', Part(SB, [], 'void defer_event ( Event const & event )'),
+    'void api_defer_event(fsm_t* self, event_t event)', 'api_mp11.spec.h', defines=['UNIT_DEFER_API=1'], xform=xfa(), replay=['defer']))
